@@ -8,8 +8,11 @@ package calendar
 
 //@ # ================================================================ Solar
 
+//@ # the second clause says a date is determined by its day number (yOf/mOf/dOf is the proved inverse of jdn): two
+//@ # Solar objects with the same day number have the same year, month and day
 //@ type Solar established_by NewSolar
 //@   invariant validYmd(self.year, self.month, self.day) && validHms(self.hour, self.minute, self.second)
+//@   invariant implies(inYears(self.year), yOf(jdn(self.year, self.month, self.day)) == self.year && mOf(jdn(self.year, self.month, self.day)) == self.month && dOf(jdn(self.year, self.month, self.day)) == self.day)
 
 //@ spec func sjdn(s *Solar) int
 //@   = jdn(s.year, s.month, s.day)
@@ -29,6 +32,7 @@ package calendar
 //@   panics_iff !(validYmd(year, month, day) && validHms(hour, minute, second))
 //@   ensures result.year == year && result.month == month && result.day == day
 //@   ensures result.hour == hour && result.minute == minute && result.second == second
+//@   use_if yearOfDate(year, month, day)
 
 //@ func NewSolarFromYmd(year int, month int, day int) *Solar [C07]
 //@   panics_iff !validYmd(year, month, day)
@@ -115,7 +119,7 @@ package calendar
 //@   ensures sjdn(result) == sjdn(solar) + days
 //@   ensures result.hour == solar.hour && result.minute == solar.minute && result.second == solar.second
 //@   ensures inYears(result.year)
-//@   ensures result.year == yOf(sjdn(solar)+days)
+//@   ensures result.year == yOf(sjdn(solar)+days) && result.month == mOf(sjdn(solar)+days) && result.day == dOf(sjdn(solar)+days)
 //@   use dayLinear(solar.year, solar.month, solar.day)
 //@   use yearOfDate(y, m, d) @ end
 //@   loop 1 invariant 1 <= m && m <= 12 && d >= 1 && -50 <= y && y <= 10050 && daysInMonth == dim(y, m) && jdn(y, m, 1)+d-1 == sjdn(solar)+days
@@ -402,3 +406,14 @@ package calendar
 //@     assert(a.year == q.year+n)
 //@     b := a.Next(-n)
 //@     assert(b.year == q.year)
+
+//@ # the days of a week that fall in the week's own month, and the first of them
+//@ ghost func weekDaysInMonth(w *SolarWeek) [C15 C08]
+//@   requires weekOK(w) && jdnInRange(jdn(w.year, w.month, w.day)-6) && jdnInRange(jdn(w.year, w.month, w.day)+6)
+//@   split woff(jdn(w.year, w.month, w.day), w.start) in 0..6
+//@   body
+//@     yearOfDate(w.year, w.month, w.day)
+//@     l := w.GetDaysInMonth()
+//@     assert(1 <= llen(l) && llen(l) <= 7)
+//@     f := w.GetFirstDayInMonth()
+//@     assert(f != nil && f.month == w.month)
